@@ -106,7 +106,21 @@ TrQuit == /\ Cmd("quit") /\ Quit /\ Done
 TrEnd == /\ Is("end") /\ Ev.extra = 0 /\ Ev.returned
          /\ Cut /\ SnapOK(boxes) /\ cfg' = cfg /\ Mark
 
-TraceNext == \/ TrReset \/ TrConnect \/ TrHello \/ TrMail \/ TrRcpt \/ TrData \/ TrBody \/ TrRset
+(* the client disconnects in the middle of the dialogue (C03): everything   *)
+(* acknowledged stays; the message whose data had been transmitted           *)
+(* completely (Ev.complete, only possible for a body step) may or may not    *)
+(* have been delivered; nothing else changes                                 *)
+BodyDec == [parse |-> Ev.parse, fits |-> Ev.size <= cfg.maxBytes, hook |-> [action |-> "none"]]
+TrCut == /\ Is("cut") /\ Ev.returned
+         /\ \/ Cut
+            \/ /\ Ev.c = "body" /\ Ev.complete /\ st = "DATA"
+               /\ Body(ExpectedMsg, BodyDec)
+         /\ SnapOK(boxes') /\ cfg' = cfg /\ Mark
+(* after a cut nothing more is sent; the driver's closing event *)
+TrEndAfterCut == /\ Is("end") /\ st = "QUIT" /\ Ev.returned
+                 /\ UNCHANGED smtpvars /\ SnapOK(boxes) /\ cfg' = cfg /\ Mark
+
+TraceNext == \/ TrCut \/ TrReset \/ TrConnect \/ TrHello \/ TrMail \/ TrRcpt \/ TrData \/ TrBody \/ TrRset
              \/ TrHarmless \/ TrRefused \/ TrAuthPlain \/ TrAuthLogin \/ TrCred \/ TrQuit \/ TrEnd
 
 TraceSpec == TraceInit /\ [][TraceNext]_tvars
